@@ -78,20 +78,22 @@ theorem runBody_pc (U : Universe) (s : St) (g x : Gen) :
         by_cases hx : x = g <;> simp [hx]
       · simp only [hsame.pc, upd_apply, h, hlt]
         by_cases hx : x = g <;> simp [hx]
+      · simp only [hsame.pc, upd_apply, h, hlt]
+        by_cases hx : x = g <;> simp [hx]
 
 /-! ### the run loop is a fold over the entries in front of the sentinel -/
 
 /-- one iteration of the run loop (the identity once the sentinel is in front) -/
-def turn (U : Universe) (c : St) : St :=
+def turn (U : Universe) [NoRaise U] (c : St) : St :=
   match iter U c with
   | .next c' => c'
   | _ => c
 
-def turns (U : Universe) : Nat → St → St
+def turns (U : Universe) [NoRaise U] : Nat → St → St
   | 0, c => c
   | n + 1, c => turns U n (turn U c)
 
-theorem loop_eq_turns (U : Universe) (fuel : Nat) {c : St} (I : Inv c) (hf : front c.active < fuel) :
+theorem loop_eq_turns (U : Universe) [NoRaise U] (fuel : Nat) {c : St} (I : Inv c) (hf : front c.active < fuel) :
     loop U fuel c = (turns U (front c.active) c, .ok) := by
   induction fuel generalizing c with
   | zero => omega
@@ -119,7 +121,7 @@ theorem front_split {c : St} {pend : List Gen} {done : List (Option Gen)} (h : S
 /-- what one turn does, by cases: the head `g` is dropped (kill pending), or its body runs and it
 is then dropped (returned), parked (positive wait) or rotated behind the sentinel.  In every case
 the rest of `pend` is untouched and `done` only grows at its end. -/
-theorem turn_cases (U : Universe) {c : St} (I : Inv c) {g : Gen} {pend : List Gen}
+theorem turn_cases (U : Universe) [NoRaise U] {c : St} (I : Inv c) {g : Gen} {pend : List Gen}
     {done : List (Option Gen)} (h : Split c (g :: pend) done) :
     Inv (turn U c) ∧
     ((c.kill g = true ∧ turn U c = dropHead c g ∧ Split (turn U c) pend done) ∨
@@ -148,6 +150,7 @@ theorem turn_cases (U : Universe) {c : St} (I : Inv c) {g : Gen} {pend : List Ge
     · split
       · exact ⟨extra, by simp [pauseHead, hact]⟩
       · exact ⟨extra ++ [some g], by simp [rotHead, rotl, hact]⟩
+    · rename_i e he; exact absurd he (runBody_no_crash U c g e)
 
 /-! ### what a turn does to the other generators -/
 
@@ -204,6 +207,7 @@ theorem runBody_other (U : Universe) (s : St) (g x : Gen) (hne : x ≠ g) :
       split
       · exact ⟨by simp [St.push, hsame.fin], fun h hno => by simpa [St.push] using hk h (hno st hs)⟩
       · exact ⟨by simp [hsame.fin, hne], fun h hno => by simpa using hk h (hno st hs)⟩
+      · exact ⟨by simp [hsame.fin, hne], fun h hno => by simpa using hk h (hno st hs)⟩
 
 theorem afterBody_fields (b : St × Next) (g : Gen) (p : Nat) :
     (afterBody b g p).pc = b.1.pc ∧ (afterBody b g p).fin = b.1.fin ∧
@@ -215,10 +219,11 @@ theorem afterBody_fields (b : St × Next) (g : Gen) (p : Nat) :
   · split
     · exact ⟨rfl, rfl, rfl, fun x _ => rfl⟩
     · exact ⟨rfl, rfl, rfl, fun x _ => rfl⟩
+  · exact ⟨rfl, rfl, rfl, fun x _ => rfl⟩
 
 /-- a turn of `g` advances `g` by one step iff it is not marked and has code; it advances nobody
 else, exhausts nobody else, and marks `x` only if the step it runs contains `kill x` -/
-theorem turn_effect (U : Universe) {c : St} (I : Inv c) {g : Gen} {pend : List Gen}
+theorem turn_effect (U : Universe) [NoRaise U] {c : St} (I : Inv c) {g : Gen} {pend : List Gen}
     {done : List (Option Gen)} (h : Split c (g :: pend) done) (x : Gen) :
     (turn U c).pc x = (if x = g ∧ c.kill g = false ∧ hasCode U c g then c.pc x + 1 else c.pc x) ∧
     (turn U c).timer = c.timer ∧
@@ -249,17 +254,17 @@ theorem Split.nodup {c : St} (I : Inv c) {pend : List Gen} {done : List (Option 
   rw [h, List.count_append] at h1
   omega
 
-theorem hasCode_congr (U : Universe) {c c' : St} {x : Gen} (h1 : c'.pc x = c.pc x)
+theorem hasCode_congr (U : Universe) [NoRaise U] {c c' : St} {x : Gen} (h1 : c'.pc x = c.pc x)
     (h2 : c'.fin x = c.fin x) : hasCode U c' x ↔ hasCode U c x := by
   unfold hasCode; rw [h1, h2]
 
-theorem curStep_congr (U : Universe) {c c' : St} {x : Gen} (h1 : c'.pc x = c.pc x) :
+theorem curStep_congr (U : Universe) [NoRaise U] {c c' : St} {x : Gen} (h1 : c'.pc x = c.pc x) :
     curStep U c' x = curStep U c x := by
   unfold curStep; rw [h1]
 
 /-- The first `before.length` turns of the run loop: every generator of `before` gets exactly one
 turn, in order; nobody else gets one. -/
-theorem turns_prefix (U : Universe) {c : St} (I : Inv c) {before rest : List Gen}
+theorem turns_prefix (U : Universe) [NoRaise U] {c : St} (I : Inv c) {before rest : List Gen}
     {done : List (Option Gen)} (h : Split c (before ++ rest) done) :
     Inv (turns U before.length c) ∧ (∃ done', Split (turns U before.length c) rest (done ++ done')) ∧
     (turns U before.length c).timer = c.timer ∧
@@ -330,7 +335,7 @@ theorem turns_prefix (U : Universe) {c : St} (I : Inv c) {before rest : List Gen
 
 /-- The run loop met with `pend` in front of the sentinel: every generator of `pend` gets exactly
 one turn, in order; nobody else gets one. -/
-theorem turns_effect (U : Universe) {c : St} (I : Inv c) {pend : List Gen}
+theorem turns_effect (U : Universe) [NoRaise U] {c : St} (I : Inv c) {pend : List Gen}
     {done : List (Option Gen)} (h : Split c pend done) :
     Inv (turns U pend.length c) ∧ (∃ done', Split (turns U pend.length c) [] done') ∧
     (turns U pend.length c).timer = c.timer ∧
@@ -346,7 +351,7 @@ theorem turns_effect (U : Universe) {c : St} (I : Inv c) {pend : List Gen}
 
 /-- generic fold principle: a reflexive, transitive relation that holds across every single turn
 of a generator of `before` holds across the turns of all of `before` -/
-theorem turns_rel (U : Universe) (R : St → St → Prop) (hrefl : ∀ c, R c c)
+theorem turns_rel (U : Universe) [NoRaise U] (R : St → St → Prop) (hrefl : ∀ c, R c c)
     (htrans : ∀ a b c, R a b → R b c → R a c) {before : List Gen}
     (hturn : ∀ (c : St) (g : Gen) (pend : List Gen) (done : List (Option Gen)), Inv c →
       Split c (g :: pend) done → g ∈ before → R c (turn U c))
@@ -370,7 +375,7 @@ theorem turns_rel (U : Universe) (R : St → St → Prop) (hrefl : ∀ c, R c c)
     simp only [List.length_cons, turns]
     exact ⟨htrans _ _ _ r1 r2, I2, d1 ++ d2, by simpa [List.append_assoc] using hs2⟩
 
-theorem turns_add (U : Universe) (m n : Nat) (c : St) :
+theorem turns_add (U : Universe) [NoRaise U] (m n : Nat) (c : St) :
     turns U (m + n) c = turns U n (turns U m c) := by
   induction m generalizing c with
   | zero => simp [turns]
@@ -581,7 +586,7 @@ theorem front_zero_head {l : List (Option Gen)} (h0 : front l = 0) (hc : l.count
 
 /-- A frame: the wake-up phase appends the woken generators, the rotation puts the sentinel last,
 and the run loop gives every generator then in the deque exactly one turn. -/
-theorem process_frame (U : Universe) {s : St} (T : Top s) (dt : Int) (hint : List Gen) :
+theorem process_frame (U : Universe) [NoRaise U] {s : St} (T : Top s) (dt : Int) (hint : List Gen) :
     ∃ pend : List Gen,
       (wakePhase s dt hint).1.active = none :: pend.map some ∧
       Inv (rotHead (wakePhase s dt hint).1) ∧
@@ -606,7 +611,7 @@ theorem process_frame (U : Universe) {s : St} (T : Top s) (dt : Int) (hint : Lis
     rw [hfr] at this
     exact this
 
-theorem process_top (U : Universe) {s : St} (T : Top s) (dt : Int) (hint : List Gen) :
+theorem process_top (U : Universe) [NoRaise U] {s : St} (T : Top s) (dt : Int) (hint : List Gen) :
     Top (process U s dt hint).1 := by
   obtain ⟨pend, _, I1, hsp, hp⟩ := process_frame U T dt hint
   obtain ⟨I2, ⟨done', hd⟩, _⟩ := turns_effect U I1 hsp
@@ -623,7 +628,7 @@ theorem kill_top (U : Universe) {s : St} (T : Top s) (g : Gen) : Top (kill U s g
   obtain ⟨rest, hr⟩ := T.head
   exact ⟨kill_inv U T.inv g, rest ++ extra, by rw [he, hr]; rfl⟩
 
-theorem execOp_top (U : Universe) {s : St} (T : Top s) (op : Op) : Top (execOp U s op) := by
+theorem execOp_top (U : Universe) [NoRaise U] {s : St} (T : Top s) (op : Op) : Top (execOp U s op) := by
   cases op with
   | start g => have := start_top U T g; exact ⟨this.inv.frame rfl rfl rfl rfl rfl, this.head⟩
   | kill g => have := kill_top U T g; exact ⟨this.inv.frame rfl rfl rfl rfl rfl, this.head⟩
@@ -632,13 +637,13 @@ theorem execOp_top (U : Universe) {s : St} (T : Top s) (op : Op) : Top (execOp U
     have := process_top U T dt hint; exact ⟨this.inv.frame rfl rfl rfl rfl rfl, this.head⟩
   | value g => exact ⟨T.inv.frame rfl rfl rfl rfl rfl, T.head⟩
 
-theorem run_top (U : Universe) {s : St} (T : Top s) (ops : List Op) : Top (run U s ops) := by
+theorem run_top (U : Universe) [NoRaise U] {s : St} (T : Top s) (ops : List Op) : Top (run U s ops) := by
   induction ops generalizing s with
   | nil => exact T
   | cons op rest ih => exact ih (execOp_top U T op)
 
 /-- **one step per frame**, in terms of the generator objects' progress counters -/
-theorem one_step (U : Universe) {s : St} (T : Top s) (dt : Int) (hint : List Gen) (g : Gen) :
+theorem one_step (U : Universe) [NoRaise U] {s : St} (T : Top s) (dt : Int) (hint : List Gen) (g : Gen) :
     (process U s dt hint).1.pc g ≤ s.pc g + 1 ∧ s.pc g ≤ (process U s dt hint).1.pc g ∧
     (¬ runnableIn s dt g → (process U s dt hint).1.pc g = s.pc g ∧
       (process U s dt hint).1.fin g = s.fin g) ∧
